@@ -195,7 +195,7 @@ var minSiblings = map[string]int{"C09": 3, "C15": 3}
 // The sibling comparison of a property is restricted to them, so that a deviation elsewhere alarms only the property it concerns.
 var propFuncs = map[string][]string{
 	"C08": {`^\(\*http2\.pipe\)`, `^\(\*http2\.dataBuffer\)`, `^http2\.(getDataBufferChunk|putDataBufferChunk)$`, `^\(\*http2\.writeData\)`, `^\(\*http2\.writeResHeaders\)`, `^http2\.(encodeHeaders|encKV|splitHeaderBlock|writeEndsStream)`,
-		`^\(\*http2\.responseWriter(State)?\)`, `^\(\*http2\.requestBody\)`, `^\(\*http2\.serverConn\)\.(writeDataFromHandler|writeFrameFromHandler|writeHeaders|write100ContinueHeaders|newWriterAndRequest|newWriterAndRequestNoBody|newResponseWriter|processData|writeFrameAsync|wroteFrame|runHandler|writeFrame|scheduleFrameWrite|startFrameWrite|resetStream|closeStream|handlerDone|processSettings|processSetting|processSettingInitialWindowSize|processWindowUpdate)$`, `^\\(\\*http2\\.outflow\\)`,
+		`^\(\*http2\.responseWriter(State)?\)`, `^\(\*http2\.requestBody\)`, `^\(\*http2\.serverConn\)\.(writeDataFromHandler|writeFrameFromHandler|writeHeaders|write100ContinueHeaders|newWriterAndRequest|newWriterAndRequestNoBody|newResponseWriter|processData|writeFrameAsync|wroteFrame|runHandler|writeFrame|scheduleFrameWrite|startFrameWrite|resetStream|closeStream|handlerDone|processSettings|processSetting|processSettingInitialWindowSize|processWindowUpdate|noteBodyRead|noteBodyReadFromHandler|sendWindowUpdate|sendWindowUpdate32)$`, `^\\(\\*http2\\.outflow\\)`,
 		`^\(\*http2\.stream\)\.(endStream|copyTrailersToHandlerRequest|processTrailerHeaders)$`, `^http2\.(checkWriteHeaderCode|cloneHeader|foreachHeaderElement)$`, `^\(\*http2\.writeQueue\)`, `^\(http2\.FrameWriteRequest\)\.Consume$`},
 	"C09": {`^\(\*http2\.serverConn\)\.(newWriterAndRequest|newWriterAndRequestNoBody|canonicalHeader)$`},
 	// the User-Agent the probe predicate sees over HTTP/2 is the one the client sent: the request's header map is built
